@@ -53,6 +53,9 @@ var tokenValues = map[string]any{
 	"z:one":     []string{"a"},
 	"z:dups":    []string{"b", "a", "b", "", "\x00\xff"},
 	"z:bytes":   []string{"\xfe", "A"},
+	"z:ab":      []string{"a", "b"},
+	"z:aa":      []string{"a", "a"}, // as long as z:ab, made of its elements only: denotes the set {a}
+	"z:ba":      []string{"b", "a"},
 	"m:empty":   map[string]interface{}{},
 	"m:flat":    map[string]interface{}{"a": int64(1), "b": "x", "c": true, "d": nil, "e": 1.5, "f": int32(7), "g": tPlus, "": "emptykey?"},
 	"m:nested":  map[string]interface{}{"m": map[string]interface{}{"k": "v", "l": []interface{}{int64(1), "x", nil}}, "n": int64(-9), "s": ""},
